@@ -199,6 +199,27 @@ PROPS["C13"] = {
     },
 }
 
+PROPS["C14"] = {
+    "builds": ["chk", "rel"],
+    "pre": [export_zones],
+    "rule": ("zones as for C13 (directed, fixed-offset, seeded synthetic and real tz tables through the harness's TableProvider); receivers at each chosen transition +- {0, 1 ns, 1 s, "
+             "half/whole/over the change, 3 h +- 1 s, 1 day} plus random and range-limit instants; per receiver: (A) add and subtract of a seeded duration (date units alone and mixed, "
+             "time parts of 0, 1 ns, 22-26 h, 24/48 h, sub-second mixes; both signs; constrain/reject) vs the transcribed AddZonedDateTime over the brute-force zone model; (B) until and "
+             "since against a second instant at {+-1 ns, +-3 h, +-22..26 h, +-3 d, ~1 month, ~1 year, near another transition, +-400 d, +-40000 d} for one time and one date largest unit: "
+             "exact elapsed time, transcribed DifferenceZonedDateTime, and the stated laws on the implementation's own output (sign-uniform, time part shorter than the local day, "
+             "add(until) = other instant); (C) start_of_day and hours_in_day vs a linear scan of the table, with_plain_time vs the disambiguation model; (D) Duration total / round / "
+             "compare relative to the zoned receiver vs exact elapsed time through the add model. non-trivial = receiver or result within a day of a transition, pair straddling a "
+             "transition, or a local day that is not 24 h long; distinct by fingerprint"),
+    "assumptions": ["zones.rs reference functions + refmodel::date are the oracle; AddZonedDateTime/DifferenceZonedDateTime are transcribed from the specification (with the same-date shortcut)",
+                    "a local day that is entered before its own midnight, or does not exist, is undecided for start_of_day/hours_in_day (counted)",
+                    "hours_in_day is judged as faithful rounding (1 ulp) of the exact quotient"],
+    "manifest": {
+        "technique": "runtime monitoring: transcribed zoned-arithmetic reference model over brute-force transition tables plus the property's laws evaluated on observed results, two builds",
+        "text": "Every observed ZonedDateTime add/subtract/until/since/start_of_day/hours_in_day/with_plain_time result, and Duration total/round/compare relative to a zoned date-time, is compared with a reference model over explicit transition tables (directed, synthetic and real zones), and the inverse / sign / day-length laws are evaluated on the implementation's own until() output. Workloads concentrate within a day of transitions, on pairs that straddle one with reversed time-of-day order, and on days that are not 24 h long. Holds on the executions generated.",
+        "note": "Trusted: zones.rs reference functions, refmodel::date/dur, exported tz tables. One listed known finding: the add(until) law for a receiver that is the later occurrence of a repeated time when the date part of the result is zero (behaviour mandated by the specification's algorithm).",
+    },
+}
+
 
 NOT_CLAIMED = {}
 
